@@ -52,7 +52,14 @@ pub struct Ctl {
     rdv_at: [AtomicBool; NPOINTS],
     pub rdv_met: AtomicU64,
     thread_ctr: AtomicU64,
+    /// optional observer of every point hit (must not block when called for an in-lock point)
+    tap_on: AtomicBool,
+    tap: std::sync::RwLock<Option<Tap>>,
+    /// how long a thread waits at a rendezvous point for its partner (spin iterations)
+    pub rdv_spins: AtomicU32,
 }
+
+pub type Tap = Arc<dyn Fn(u32, u64, u64) + Send + Sync>;
 
 static CTL: OnceLock<Arc<Ctl>> = OnceLock::new();
 
@@ -71,6 +78,9 @@ pub fn ctl() -> &'static Arc<Ctl> {
             sched: Mutex::new(SchedState::default()),
             rdv_partner: std::array::from_fn(|_| AtomicU32::new(0)),
             rdv_at: std::array::from_fn(|_| AtomicBool::new(false)),
+            rdv_spins: AtomicU32::new(2000),
+            tap_on: AtomicBool::new(false),
+            tap: std::sync::RwLock::new(None),
             rdv_met: AtomicU64::new(0),
             thread_ctr: AtomicU64::new(0),
         });
@@ -93,6 +103,7 @@ impl Ctl {
         for p in &self.rdv_at {
             p.store(false, Ordering::SeqCst);
         }
+        self.rdv_spins.store(2000, Ordering::SeqCst);
         self.mode.store(mode, Ordering::SeqCst);
     }
     pub fn end(&self) {
@@ -126,6 +137,10 @@ impl Ctl {
     pub fn sched_stats(&self) -> (u64, u64) {
         let s = self.sched.lock().unwrap();
         (s.decisions, s.defers)
+    }
+    pub fn set_tap(&self, t: Option<Tap>) {
+        self.tap_on.store(t.is_some(), Ordering::SeqCst);
+        *self.tap.write().unwrap() = t;
     }
     pub fn set_rendezvous(&self, a: u32, b: u32) {
         self.rdv_partner[a as usize].store(b, Ordering::SeqCst);
@@ -162,7 +177,7 @@ impl Ctl {
             if partner != 0 {
                 self.rdv_at[id as usize].store(true, Ordering::SeqCst);
                 let mut met = false;
-                for _ in 0..2000 {
+                for _ in 0..self.rdv_spins.load(Ordering::Relaxed) {
                     if self.rdv_at[partner as usize].load(Ordering::SeqCst) {
                         met = true;
                         break;
@@ -201,6 +216,12 @@ impl Controller for Ctl {
             self.inlock_hits.fetch_add(1, Ordering::Relaxed);
         } else if (id as usize) < NPOINTS {
             self.hits[id as usize].fetch_add(1, Ordering::Relaxed);
+        }
+        if self.tap_on.load(Ordering::Relaxed) {
+            let t = self.tap.read().unwrap().clone();
+            if let Some(t) = t {
+                t(id, a, b);
+            }
         }
         match self.mode.load(Ordering::Relaxed) {
             MODE_NOISE => self.noise(id, in_lock),
